@@ -157,3 +157,6 @@ func (d *VerifDown) CopyFrom(o *VerifDown) {
 	*d.T.maxREMBBitrate = *o.T.maxREMBBitrate
 	*d.T.stats = *o.T.stats
 }
+
+// RateState returns the private state of the down track's rate estimator.
+func (d *VerifDown) RateState(now uint64) string { return d.T.rate.VerifState(now) }
